@@ -110,6 +110,9 @@ fn totals(s: &dyn ServerStats) -> [u64; 11] {
 pub struct History {
     pub limit: u8,
     pub ops: Vec<Op>,
+    /// positions (indices into ops) after which the recorder is snapshotted and cleared, as the server's timer does
+    #[serde(default)]
+    pub clears: Vec<u16>,
 }
 
 /// step invariant + bound + Aggregated == PerClient while no overflow
@@ -159,6 +162,16 @@ fn check_history(ctx: &mut Ctx, h: &History) -> Res {
         }
         if !overflowed && totals(&per) != totals(&agg) {
             return ctx.fail("aggregated-differs-from-per-client", format!("after op #{} {:?}: per-client totals {:?} aggregated {:?}", n, op, totals(&per), totals(&agg)));
+        }
+        if h.clears.iter().any(|c| *c as usize == n) {
+            // snapshot + clear: afterwards every counter, total and the overflow count start from zero again
+            per.clear();
+            agg.clear();
+            overflowed = false;
+            let z = snapshot(&per);
+            if z.0 != [[0u64; 9]; 4] || z.1 != 0 || z.2 != 0 || totals(&per) != [0u64; 11] || totals(&agg) != [0u64; 11] {
+                return ctx.fail("clear-leaves-residue", format!("after clear() following op #{}: per-client {:?} totals {:?}, aggregated totals {:?}", n, z, totals(&per), totals(&agg)));
+            }
         }
     }
     if overflowed {
@@ -279,13 +292,16 @@ pub struct TrafficCase {
     pub batch_size: u8,
     pub stats: bool,
     pub steps: Vec<Vec<Send>>,
+    /// fault_percentage of the server (deliberately corrupted replies are still replies: they are sent and must be counted)
+    #[serde(default)]
+    pub fault: u8,
 }
 
 fn check_traffic(ctx: &mut Ctx, c: &TrafficCase) -> Res {
     ctx.eval();
     // a free TCP port for the health check (the worker runs in its own network namespace, so any port is ours)
     let hc_port = if c.health_checks > 0 { std::net::TcpListener::bind("127.0.0.1:0").ok().and_then(|l| l.local_addr().ok()).map(|a| a.port()) } else { None };
-    let cfg = LabCfg { seed: c.seed.0.clone(), batch_size: c.batch_size, client_stats: c.stats, health_port: hc_port, ..Default::default() };
+    let cfg = LabCfg { seed: c.seed.0.clone(), batch_size: c.batch_size, client_stats: c.stats, health_port: hc_port, fault: c.fault, ..Default::default() };
     let mut lab = match Lab::new(cfg, 16) {
         Ok(l) => l,
         Err(e) => return ctx.fail("server-new-failed", e),
@@ -326,7 +342,7 @@ fn check_traffic(ctx: &mut Ctx, c: &TrafficCase) -> Res {
         let sent = materialize(&lab, step, 16);
         let sends: Vec<(usize, Vec<u8>)> = sent.iter().map(|s| (s.sock, s.bytes.clone())).collect();
         let expect = sent.iter().filter(|s| s.standard.is_some()).count();
-        let res = match lab.step(&sends, expect) {
+        let res = match lab.step(&sends, if c.fault == 0 { expect } else { 0 }) {
             Ok(r) => r,
             Err(StepErr::Panic(p)) => return ctx.fail(format!("process-events-panic|{}", panic_site(&p)), p),
             Err(StepErr::Wedged(m)) => return ctx.fail("wedged", m),
@@ -362,7 +378,7 @@ fn check_traffic(ctx: &mut Ctx, c: &TrafficCase) -> Res {
             return ctx.fail("per-client-entry-differs-from-traffic", format!("entry for 127.0.0.1 = {:?}, unique clients {}", per, st.total_unique_clients()));
         }
     }
-    ctx.class(&format!("c17:traffic:stats={}:{}", c.stats, if classic > 0 && ietf > 0 && datagrams > classic + ietf { "mixed+invalid" } else { "simple" }));
+    ctx.class(&format!("c17:traffic:stats={}:fault={}:{}", c.stats, if c.fault > 0 { "on" } else { "off" }, if classic > 0 && ietf > 0 && datagrams > classic + ietf { "mixed+invalid" } else { "simple" }));
     ctx.nontrivial(&("traffic", c.stats, datagrams, classic, ietf, bytes));
     Ok(())
 }
@@ -401,17 +417,20 @@ pub fn run(ctx: &mut Ctx) -> Vec<Violation> {
                 r /= 32;
                 ops.push(Op { kind: KINDS[d % 8], addr: (d / 8) as u8, bytes: 7 });
             }
-            History { limit, ops }
+            History { limit, ops, clears: vec![] }
         },
         |ctx, h| check_history(ctx, h),
     );
     if v.is_empty() && ctx.shard == 0 {
         ctx.stats.exhaustive_spaces.push(format!("all {} histories of length 0..={} over 32 operations (8 kinds x 4 addresses incl. an IPv4-mapped IPv6 one) x limits 1..=3", total, max_len));
-        ctx.sample("exh-histories", 1, &History { limit: 1, ops: vec![Op { kind: Kind::ClassicReq, addr: 0, bytes: 7 }, Op { kind: Kind::RfcResp, addr: 1, bytes: 7 }] });
+        ctx.sample("exh-histories", 1, &History { limit: 1, ops: vec![Op { kind: Kind::ClassicReq, addr: 0, bytes: 7 }, Op { kind: Kind::RfcResp, addr: 1, bytes: 7 }], clears: vec![] });
     }
     out.extend(v);
     // random long histories
-    let hist = (1u8..=3, prop_oneof![3 => vec_of(op_strategy(false).boxed(), 0usize..=60), 1 => vec_of(op_strategy(false).boxed(), 1_000usize..=10_000)]).prop_map(|(limit, ops)| History { limit, ops });
+    let hist = (1u8..=3, prop_oneof![3 => vec_of(op_strategy(false).boxed(), 0usize..=60), 1 => vec_of(op_strategy(false).boxed(), 1_000usize..=10_000)]).prop_flat_map(|(limit, ops)| {
+        let n = ops.len().max(1) as u16;
+        (Just(limit), Just(ops), proptest::collection::vec(0..n, 0..=3)).prop_map(|(limit, ops, clears)| History { limit, ops, clears })
+    });
     out.extend(run_prop(ctx, "random-histories", t.pick(20_000, 200_000), 500, hist, |ctx, h| check_history(ctx, h)));
     // splits across workers with snapshot points
     let split = (1u8..=4, vec_of((0u8..4, op_strategy(false), prop::bool::weighted(0.15)).boxed(), 0usize..=80)).prop_map(|(workers, events)| SplitCase { csv: false, workers, events });
@@ -424,7 +443,7 @@ pub fn run(ctx: &mut Ctx) -> Vec<Violation> {
     out.extend(run_prop(ctx, "worker-splits-csv", t.pick(400, 8_000), 200, split_csv, |ctx, c| check_split(ctx, c)));
     // traffic served by an in-process server
     let step = vec_of((0u8..16, prop_oneof![3 => std_req().prop_map(Dgram::Std), 2 => any_dgram()]).prop_map(|(sock, d)| Send { sock, d }).boxed(), 0usize..=40);
-    let traffic = (seed32(), prop::sample::select(vec![1u8, 3, 16, 64]), prop::bool::weighted(0.15), proptest::collection::vec(step, 1..=3), prop_oneof![3 => Just(0u8), 1 => 1u8..=4]).prop_map(|(seed, batch_size, stats, steps, health_checks)| TrafficCase { health_checks, seed, batch_size, stats, steps });
+    let traffic = (seed32(), prop::sample::select(vec![1u8, 3, 16, 64]), prop::bool::weighted(0.15), proptest::collection::vec(step, 1..=3), prop_oneof![3 => Just(0u8), 1 => 1u8..=4], prop_oneof![3 => Just(0u8), 1 => 1u8..=50]).prop_map(|(seed, batch_size, stats, steps, health_checks, fault)| TrafficCase { health_checks, seed, batch_size, stats, steps, fault });
     out.extend(run_prop(ctx, "traffic", t.pick(8_000, 64_000), 200, traffic, |ctx, c| {
         ctx.sample("traffic", 1, &(c.stats, c.batch_size, c.steps.iter().map(|s| s.len()).collect::<Vec<_>>()));
         check_traffic(ctx, c)
